@@ -163,6 +163,9 @@ type Augment struct {
 	// Invalid, when set, says why the generator expects this augment to be
 	// reported: "missing-target", "leaf-target", "collision".
 	Invalid string `json:"invalid,omitempty"`
+	// Late: the target path runs through the implicit case of a shorthand
+	// choice member, so it exists only after implicit cases were inserted.
+	Late bool `json:"late,omitempty"`
 }
 
 // Deviate is one deviate statement.
